@@ -189,20 +189,35 @@ def run(ck, tier):
             body = v.body
             if code in want:
                 arg = body.args[1] if isinstance(body, ast.Call) and len(body.args) == 2 else None
-                sets = []
-                if isinstance(arg, ast.IfExp):
-                    for br, i in ((arg.body, 0), (arg.orelse, 0)):
-                        sets.append(cx.ce.try_ev(br, fac.mod, fac, env={ip: i}))
-                    mid = cx.ce.try_ev(arg.body, fac.mod, fac, env={ip: 1})
-                elif arg is not None:
-                    sets.append(cx.ce.try_ev(arg, fac.mod, fac, env={ip: 0}))
-                    mid = cx.ce.try_ev(arg, fac.mod, fac, env={ip: 1})
-                ok = bool(sets) and all(s_ is not None and set(s_) == want[code] for s_ in sets)
+                # the "is the start object populated" lookup c.__get(r, i)[i] is replaced by each truth value in turn,
+                # everything else is constant-folded for a concrete start id
+                from ..loader import clone
+
+                def ids(pop, start):
+                    class Pop(ast.NodeTransformer):
+                        def visit_Subscript(self2, n):
+                            if isinstance(n.value, ast.Call) and U(n.value.func).endswith('__get'):
+                                return ast.Constant(value=pop)
+                            return self2.generic_visit(n)
+                    if arg is None:
+                        return None
+                    got = cx.ce.try_ev(Pop().visit(clone(arg)), fac.mod, fac, env={ip: start})
+                    try:
+                        return set(got) if got is not None else None
+                    except TypeError:
+                        return None
+                sets = [ids(True, 0), ids(False, 0)]
+                mid = ids(True, 1)
+                ok = all(s_ is not None and s_ == want[code] for s_ in sets)
                 ck.ob('R4', fac.qn, 'read code %d from object 0 covers ids %s' % (code, _rng(want[code])), ok,
-                      detail='category %d %s' % (code, [_rng(set(s_)) if s_ is not None else None for s_ in sets]), loc=fac.loc,
-                      message='DeviceInformationFactory read code %d returns ids %s, expected %s' % (code, [_rng(set(s_)) if s_ is not None else None for s_ in sets], _rng(want[code])))
-                okm = mid is not None and set(mid) == {x for x in want[code] if x >= 1}
+                      detail='category %d %s' % (code, [_rng(s_) if s_ is not None else None for s_ in sets]), loc=fac.loc,
+                      message='DeviceInformationFactory read code %d returns ids %s, expected %s' % (code, [_rng(s_) if s_ is not None else None for s_ in sets], _rng(want[code])))
+                okm = mid is not None and mid == {x for x in want[code] if x >= 1}
                 ck.ob('R4', fac.qn, 'read code %d continues from the requested object id' % code, okm, detail='continuation %d' % code, loc=fac.loc)
+                bad_start = [start for start in sorted(want[code]) if ids(True, start) != {x for x in want[code] if x >= start}]
+                ck.ob('R4', fac.qn, 'read code %d: a request starting at any populated object of the category continues from exactly that object' % code,
+                      not bad_start, detail='continuation-start %d %s' % (code, _rng(set(bad_start))), loc=fac.loc,
+                      message='DeviceInformationFactory read code %d: a continuation request starting at object id(s) %s does not return the objects from that id onward (restart / skip): the chain repeats or loses objects' % (code, _rng(set(bad_start))))
                 ck.ob('R4', fac.qn, 'read code %d uses the multi-object getter' % code, isinstance(body, ast.Call) and U(body.func).endswith('__gets'), detail='getter %d' % code, loc=fac.loc)
             elif code == 4:
                 ok = isinstance(body, ast.Call) and U(body.func).endswith('__get') and len(body.args) == 2 and U(body.args[1]) == ip
